@@ -107,6 +107,17 @@ m("c17-validate0-slice", "mutant", "C17", RD, "        payload = message[3:-3]",
 m("c17-parsed-false-no-ubx", "mutant", "C17", RD, "                if bytehdr == UBX_HDR:", "                if bytehdr == UBX_HDR and self._parsed:")
 m("c17-validate0-labelmsm", "mutant", "C17", RD, "        return RTCMMessage(payload=payload, labelmsm=labelmsm)", "        return RTCMMessage(payload=payload, labelmsm=labelmsm if validate else 1)")
 
+# ---- C13 -------------------------------------------------------------------
+m("c13-shared-index", "mutant", "C13", MS, "        index = []  # array of (nested) group indices", "        index = _SHARED_INDEX  # array of (nested) group indices\n        del index[:]")
+m("c13-class-satmap", "mutant", "C13", MS, "        self._satmap = {}\n        nsat = 0", "        RTCMMessage._shared_satmap = self._satmap = getattr(RTCMMessage, \"_shared_satmap\", None) or {}\n        self._satmap.clear()\n        nsat = 0")
+m("c13-global-labelmsm", "mutant", "C13", MS, "        sigcode = 0 if self._labelmsm == 2 else 1", "        global _LABELMSM\n        _LABELMSM = self._labelmsm\n        prnmap = dict(prnmap)\n        sigcode = 0 if _LABELMSM == 2 else 1")
+m("c13-table-normalised", "mutant", "C13", MS, "            pdict = self._get_dict()\n", "            pdict = self._get_dict()\n            if pdict is not None and \"DF002\" in pdict and len(pdict) > 12:\n                pdict[\"DF002\"] = pdict.pop(\"DF002\")\n")
+m("c13-memo-layout", "mutant", "C13", MS,
+  ["            gsiz = getattr(self, anam)\n", "        index.append(0)  # add a (nested) group index level"],
+  ["            gsiz = _GSIZ_MEMO.get((self.identity, anam), None) or getattr(self, anam)\n", "        if not isinstance(anam, int) and self.identity[:2] == \"10\":\n            _GSIZ_MEMO[(self.identity, anam)] = gsiz\n        index.append(0)  # add a (nested) group index level"])
+m("c13-failed-parse-dirty", "mutant", "C13", MS, "        except Exception as err:  # pragma: no cover\n            raise RTCMTypeError(", "        except Exception as err:  # pragma: no cover\n            RTCM_DATA_FIELDS.setdefault(\"_errs\", []).append(anam)\n            raise RTCMTypeError(")
+m("c13-memo-getdict", "refactor", "C13", MS, "    def _get_dict(self) -> dict:", "    def _get_dict(self) -> dict:\n        _MEMO_SEEN.add(self.identity)\n        return self._get_dict2()\n\n    def _get_dict2(self) -> dict:")
+
 
 def run(mid, kind, props, file, old, new, runs, tier, only_props):
     tmp = tempfile.mkdtemp(prefix="verif-mut-")
@@ -114,9 +125,15 @@ def run(mid, kind, props, file, old, new, runs, tier, only_props):
         shutil.copytree("/repo/src", os.path.join(tmp, "src"), ignore=shutil.ignore_patterns("__pycache__"))
         path = os.path.join(tmp, file)
         s = open(path).read()
-        if s.count(old) != 1:
-            return [(mid, kind, "-", f"PATTERN-COUNT={s.count(old)}")]
-        open(path, "w").write(s.replace(old, new))
+        olds = old if isinstance(old, list) else [old]
+        news = new if isinstance(new, list) else [new]
+        for o_, n_ in zip(olds, news):
+            if s.count(o_) != 1:
+                return [(mid, kind, "-", f"PATTERN-COUNT={s.count(o_)}")]
+            s = s.replace(o_, n_)
+        if file.endswith("rtcmmessage.py"):
+            s = s.replace('BOOL = "B"', 'BOOL = "B"\n_SHARED_INDEX = []\n_GSIZ_MEMO = {}\n_MEMO_SEEN = set()\n_LABELMSM = 1')
+        open(path, "w").write(s)
         out = []
         for p in props:
             if only_props and p not in only_props:
